@@ -339,6 +339,10 @@ func (e *Env) WiringOracle(m *Model) []Finding {
 					bad("dependency is unregistered yet the constructor ran")
 				}
 			default:
+				if d.T == "void" {
+					// the "service" of a function without results is the empty struct: nothing to identify
+					continue
+				}
 				if a.Kind != "inst" {
 					if d.Opt {
 						bad("optional dependency is registered but the field was left zero")
